@@ -36,6 +36,10 @@ def items(tier, seed):
             out.append(dict(name="omega_N%d_j%d" % (N, j), kind="omega", N=N, j=j))
     for N in range(NSCD[tier], 0, -1):
         out.append(dict(name="scd_N%d" % N, kind="scd", N=N))
+    # the 18-or-more-neutrals regime of the delta-max search (lengths beyond NMAX): delta-max and kappa under reversal / inversion
+    for n0 in (18, 19):
+        for (a, b) in ([(5, 1), (7, 2), (2, 2)] if tier == "quick" else [(5, 1), (6, 1), (7, 1), (7, 2), (1, 5), (2, 2), (3, 1), (4, 4)]):
+            out.append(dict(name="dmax_regime_N%d_p%d_n%d" % (n0 + a + b, a, b), kind="dk", dmax_only=True, N=n0 + a + b, npos=a, nneg=b, transforms=["invert", "reverse"]))
     return out
 
 
@@ -95,7 +99,7 @@ def run_item(item):
     res = new_result()
     N = item["N"]
     kind = item["kind"]
-    for tname in TRANSFORMS:
+    for tname in item.get("transforms", TRANSFORMS):
         I = interp()
         vs, s = sym_sequence(I, N)
         omega = kind == "omega"
@@ -126,6 +130,9 @@ def run_item(item):
                     res["samples"].append(dict(item=item["name"], witness=cex(m), obligation="SCD invariant under %s for all 20^%d sequences" % (tname, N)))
         elif kind == "dk":
             def thunk():
+                if item.get("dmax_only"):
+                    return ([0.0, I.call(I.call(SequenceParameters, [s], {}).get_deltaMax, [], {}), 0.0],
+                            [0.0, I.call(I.call(SequenceParameters, [s2], {}).get_deltaMax, [], {}), 0.0])
                 o1 = I.call(SequenceParameters, [s], {})
                 o2 = I.call(SequenceParameters, [s2], {})
                 return ([I.call(I.call(SequenceParameters, [s], {}).get_delta, [], {}), I.call(I.call(SequenceParameters, [s], {}).get_deltaMax, [], {}), I.call(o1.get_kappa, [], {})],
@@ -138,6 +145,8 @@ def run_item(item):
                     ob.prove(within(num(m1) - num(m2), TOL), "deltaMax invariant under " + lab, cex)
                 else:
                     ob.prove(abs(float(m1) - float(m2)) <= TOL, "deltaMax invariant under " + lab, lambda m_: cex(m))
+                if item.get("dmax_only"):
+                    return
                 ok, cut = prove_sum_close(ob, num(d2), [num(d1)], TOL, "delta invariant under " + lab, cex, want_cut=True)
                 if not is_sym(k1) and not is_sym(k2):
                     ob.prove(abs(float(k1) - float(k2)) <= TOL, "kappa invariant under " + lab, lambda m_: cex(m))
@@ -182,6 +191,9 @@ def run_item(item):
             on_return(ob, val, m)
             # translator validation at the witness: encoding under the model == native getters on (s, T(s))
             c = cex(m)
+            if item.get("dmax_only"):
+                res["validated"] += 1
+                return
             names = {"scd": ["get_SCD"], "dk": ["get_delta", "get_deltaMax", "get_kappa"], "omega": ["get_Omega"]}[kind]
             want = [[getattr(SequenceParameters(q), n)() for n in names] for q in (c["seq"], c["seq2"])]
             got = concrete(m, val)
